@@ -34,7 +34,7 @@ ASSUMPTIONS = [
     "time recurrences accepted per step: t+dt or (t+dt/2)+dt/2",
     "halting collisions are defined at step boundaries only for the non-hybrid integrators (MERCURIUS/TRACE search inside encounter sub-steps)",
 ]
-CLASSES = ["contract/eft0", "contract/eft1", "contract/backward", "contract/equal", "contract/ulp", "contract/nearzero",
+CLASSES = ["contract/min_dt", "contract/max_dt", "contract/eft0", "contract/eft1", "contract/backward", "contract/equal", "contract/ulp", "contract/nearzero",
            "contract/dt_gt_interval", "contract/adaptive_shortened", "contract/retry_last_step",
            "status/escape", "status/encounter", "status/collision", "status/noparticles", "status/stop",
            "status/success", "status/k0", "split/pieces>=2"]
@@ -69,8 +69,21 @@ def make_sim(case):
     apply_cfg(sim, case["cfg"])
     sim.t = case["t0"]
     sim.dt = case["usign"] * case["dt_frac"] * sysd["P_min"]
+    base = abs(sim.dt)
     if not case["cfg"]["fixed_step"]:
         sim.dt *= case.get("dt_big", 1.0)   # adaptive schemes: also first guesses far above what they will accept
+    # documented step-size limits of the adaptive schemes, in units of the user's step: min_dt comparable to and
+    # larger than the stub that is left before tmax (IAS15: a step clamped to min_dt is never rejected, so any value
+    # terminates; BS rejects unconverged steps, so its floor stays well below what it needs)
+    lim = case.get("limits") or {}
+    fam = case["cfg"]["family"]
+    if fam == "ias15" and lim.get("min"):
+        sim.ri_ias15.min_dt = lim["min"] * base
+    if fam == "bs":
+        if lim.get("min"):
+            sim.ri_bs.min_dt = 0.1 * lim["min"] * base
+        if lim.get("max"):
+            sim.ri_bs.max_dt = lim["max"] * base
     return sim
 
 
@@ -128,6 +141,8 @@ contract_case = st.fixed_dictionaries({
     "dt_frac": S.logfloats(1e-3, 0.06),
     "usign": st.sampled_from([1.0, 1.0, -1.0]),
     "dt_big": st.sampled_from([1.0, 1.0, 8.0, 40.0]),
+    "limits": st.fixed_dictionaries({"min": st.sampled_from([0.0, 0.0, 0.2, 0.5, 1.0, 2.0]),
+                                     "max": st.sampled_from([0.0, 0.0, 0.5, 2.0])}),
     "t0": st.sampled_from(T0S),
     "calls": st.lists(call, min_size=1, max_size=4),
 })
@@ -207,6 +222,10 @@ def run_contract(case, ctx):
         t1 = sim.t
         n = len(log) - 1
         ctx.cls("eft%d" % eft)
+        if ci == 0 and fam in ("ias15", "bs") and (case.get("limits") or {}).get("min"):
+            ctx.cls("min_dt")
+        if ci == 0 and fam == "bs" and (case.get("limits") or {}).get("max"):
+            ctx.cls("max_dt")
         # --- 4. tmax == t: no-op
         if dirn == 0:
             ctx.cls("equal")
@@ -244,6 +263,11 @@ def run_contract(case, ctx):
             abs(ts[-1] - tmax) <= 8 * 2.0 ** -52 * max(abs(ts[-2]), abs(tmax))
         if snapped:
             ctx.cls("snapped_to_tmax")   # a last step that passed tmax by rounding only may be set to tmax
+        if rb.dbits(ts[-1]) != rb.dbits(t1) and not snapped and (t1 - ts[-1]) * dirn < 0:
+            raise Violation("the last step ended at %r, past the target by %.3e (not rounding: %.1f ulp), and t was then "
+                            "moved back against the direction of integration to %r; %s"
+                            % (ts[-1], abs(ts[-1] - tmax), abs(ts[-1] - tmax) / (2.0 ** -52 * max(abs(ts[-2]), abs(tmax), 1e-300)),
+                               t1, where), times=ts[-3:])
         if (rb.dbits(ts[-1]) != rb.dbits(t1) and not snapped) or rb.dbits(ts[0]) != rb.dbits(t0):
             raise Violation("time changed outside of steps: first/last heartbeat %r/%r, before/after %r/%r; %s"
                             % (ts[0], ts[-1], t0, t1, where))
